@@ -406,3 +406,13 @@ REGISTRY["C05"]["partial_clauses"] = ["float rounding; 'about eightfold per halv
                                       "-q e^{-mu h} h mu^4 dz^3 / 24 plus a remainder one order smaller (numeric_flux_leading_error), and the leading term at dz/2 is exactly one eighth "
                                       "of the one at dz (leading_term_halving); for non-uniform grids the upper bound of numeric_vs_analytic_flux/_conc (cubic in the largest layer "
                                       "thickness) applies; the observed ratios (8.1-8.8 at 16-64 layers) are checked by the order oracle"]
+
+# C19 mass clause, discrete part: tagged Riemann sums of a continuous function converge to the integral (uniformly in the tags);
+# the crosswind-integrated footprint extended by 0 (sflag = x > 0) is continuous on [0, X]; its grid sums tend to Q(mu, xi/X)
+REGISTRY["C19"]["theorems"] += T("Proofs.C19e", "BLDFM.C19", ["riemann_sum_error", "riemann_sum_tendsto", "km_receptor_limit", "kmFy_continuousOn",
+                                                               "kmFy_integral", "km_grid_sum_tendsto_mass"])
+REGISTRY["C19"]["partial_clauses"][0] = ("mass clause: the along-wind grid sums of the crosswind-integrated footprint converge, as the grid is refined and whichever point of a cell is "
+    "sampled, to EXACTLY the regularised incomplete-gamma mass Q(mu, xi/X) within the upwind extent X (km_grid_sum_tendsto_mass, from the general riemann_sum_tendsto, "
+    "kmFy_continuousOn and km_mass_within_extent; the upper incomplete gamma function is written as its defining integral because Mathlib has none); the crosswind Gaussian has unit "
+    "mass (km_crosswind_gaussian_unit_mass). What stays numeric (oracle, scipy.special.gammaincc): the two-dimensional cell sum, i.e. that the crosswind sums of the Gaussian over a "
+    "window of +-8 sigma reach its unit mass at the same time")
